@@ -77,6 +77,8 @@ STRENGTHENED = {
     "C12w8-entry-dedup-ignores-include-files": "C12: end-to-end case with a user-defined pass that differs from the default pass in its forced include only; C08: the same file with two different `-include` options",
     "C13w8-own-directory-dropped-from-I": "C13: `-I .` naming the compiled file's own directory, needed by an angle include",
     "C14w8-process-wide-miss-cache": "C14: a platform that cannot reach a header the others find through `-I`; a repeat of the same schedule in one process that differs is now a violation of its own (it used to stop the check as a harness error) — C18 already reported it",
+    "C10w9-excludes-sorted-set": "C10: order-sensitive exclude lists (pattern, then the negation that re-includes from it) always go through the three front ends; the rendering itself had silently dropped out when same-named sub-directories were added and is now anchored to the top level",
+    "C14w9-quote-include-cache-by-file": "C14: a quoted include that two platforms resolve through different `-I` directories (C08 already reported it)",
     "C11-split-fast-path": "C11: backslash-escaped and double-quoted renderings of the command string",
 }
 
